@@ -12,6 +12,12 @@ import (
 	"github.com/jcmturner/gokrb5/v8/messages"
 )
 
+// maxTCPResponseSize is the largest response, in bytes, that will be accepted over TCP.
+// The four byte length that precedes a response (RFC 4120 section 7.2.2) can announce up to 4 GiB.
+// Real responses are a few kilobytes, a few tens of kilobytes with a large PAC; MIT krb5 caps what it
+// reads from a KDC over TCP at 1 MiB and the same limit is used here.
+const maxTCPResponseSize = 1024 * 1024
+
 // SendToKDC performs network actions to send data to the KDC.
 func (cl *Client) sendToKDC(b []byte, realm string) ([]byte, error) {
 	var rb []byte
@@ -179,11 +185,16 @@ func sendTCP(conn *net.TCPConn, b []byte) ([]byte, error) {
 	}
 
 	sh := make([]byte, 4, 4)
-	_, err = conn.Read(sh)
+	// A single Read may return fewer than the four bytes of the header.
+	_, err = io.ReadFull(conn, sh)
 	if err != nil {
 		return r, fmt.Errorf("error reading response size header: %v", err)
 	}
 	s := binary.BigEndian.Uint32(sh)
+	// The length is whatever the peer wrote. Do not let it size an allocation of up to 4 GiB.
+	if s > maxTCPResponseSize {
+		return r, fmt.Errorf("response size header from %s indicates %d bytes, more than the maximum of %d accepted", conn.RemoteAddr().String(), s, maxTCPResponseSize)
+	}
 
 	rb := make([]byte, s, s)
 	_, err = io.ReadFull(conn, rb)
